@@ -22,7 +22,7 @@ OMEN_MODELS = [
 ]
 
 
-def make(rng, path, with_m=True, m_last=False, omen_model=None):
+def make(rng, path, with_m=True, m_last=False, omen_model=None, zero_level=False):
     for attempt in range(200):
         # groups of several equally probable values (a pre-terminal then holds several guesses per first transition: a status
         # request can land between them) - the pre-terminal probabilities stay distinct
@@ -44,6 +44,9 @@ def make(rng, path, with_m=True, m_last=False, omen_model=None):
                 omen_prob.append((3, round(rng.uniform(0.001, 0.009), 6)))
             if rng.random() < 0.4:
                 omen_prob.insert(0, (0, round(rng.uniform(0.9, 1.0), 6)))
+            if zero_level:
+                # a level no training password reached: the trainer lists it with probability 0.0; it is generated last
+                omen_prob.append((4, 0.0))
         base.sort(key=lambda x: -x[1])
         rulesets.write_ruleset(path, terms, base, omen_prob=omen_prob, omen=(OMEN_MODELS[omen_model] if omen_model is not None else rng.choice(OMEN_MODELS)),
                                omen_keyspace=[(lv_, 2 * lv_ + 1) for lv_, _ in sorted(omen_prob)] or [(1, 3)], uuid='11111111-2222-3333-4444-%012d' % rng.randint(0, 10 ** 11))
